@@ -69,7 +69,7 @@ func (e *Explorer) NoteOutcome(o string) {
 }
 
 func (e *Explorer) newSched() *Sched {
-	return &Sched{ctl: make(chan struct{}, 1), doneMap: map[<-chan struct{}]*cancelCtx{}, timers: e.Timers}
+	return &Sched{ctl: make(chan struct{}, 1), endCh: make(chan bool, 1), doneMap: map[<-chan struct{}]*cancelCtx{}, timers: e.Timers}
 }
 
 // runOne executes one schedule. prefix is followed; afterwards choice 0 is
@@ -128,8 +128,6 @@ func (e *Explorer) runOne(br branch, keepTrace bool, follow bool) *Sched {
 	s.wg.Add(1)
 	go root.run(func() { e.Body(s) })
 	s.running = nil
-	// the root's start is the first decision
-	s.ctl <- struct{}{}
 	complete := s.loop(e.maxSteps())
 	if s.steps > e.MaxDepth {
 		e.MaxDepth = s.steps
